@@ -466,7 +466,8 @@ var voidElements = map[string]struct{}{
 
 // https://www.w3.org/TR/2011/WD-html-markup-20110113/syntax.html#void-element
 func (e Element) IsVoidElement() bool {
-	_, ok := voidElements[e.Name]
+	// HTML element names are case-insensitive: <bR/> is a void element too.
+	_, ok := voidElements[strings.ToLower(e.Name)]
 	return ok
 }
 
@@ -486,7 +487,7 @@ var blockElements = map[string]struct{}{
 }
 
 func (e Element) IsBlockElement() bool {
-	_, ok := blockElements[e.Name]
+	_, ok := blockElements[strings.ToLower(e.Name)]
 	return ok
 }
 
